@@ -5,6 +5,11 @@ V = os.path.dirname(os.path.dirname(os.path.abspath(__file__)))
 ALL = ['C%02d' % i for i in range(1, 20)]
 
 CHECKS = {
+ 'C09': dict(
+   technique='static CFG rules: edge dominance of the sticky-state guards, path-enumerated rc->stream-state decision table of both drivers, guard facts at every HTP_DATA/HTP_DATA_BUFFER return of the 24 state functions',
+   text='Decides, for every path of the two driver functions and of every state function, the structural part of the stream contract: STOP/ERROR are tested before any effect and return the same state; only documented states are returned; the mapping from state-function result to stream state and returned value follows the documented table; a state function asks for more data only with the chunk exhausted; the consumed accessor and byte counters are wired to the read offset / chunk length. Not decided: liveness (no endless DATA_OTHER ping-pong).',
+   note='Assumes callbacks return documented status codes. Value-level claims (exact consumed count) are reduced to which field is returned and where it is advanced.',
+   ref='§4.9'),
  'C19': dict(
    technique='static effect analysis: who-may-write over the whole-library call graph (function-pointer slots resolved), alias closure for the one escaping global',
    text='Non-interference by construction, decided for every path of every function: no global/static is written, nothing reachable from the stream API stores through a configuration object or calls a libc function with process-wide state, the hook runners are read-only. Holds for all inputs and schedules because it is a property of the code, not of a run.',
